@@ -995,6 +995,7 @@ fn orchestrate(prop: &Prop, tier: Tier, dump: Option<&Path>) -> i32 {
         };
         let out = parts_dir.join(format!("{}.{}.{}.json", prop.id, tier.name(), p.name));
         let _ = std::fs::remove_file(&out);
+        clear_announced(prop.id);
         let mut child = std::process::Command::new(&bin)
             .arg("--tier")
             .arg(tier.name())
@@ -1021,7 +1022,7 @@ fn orchestrate(prop: &Prop, tier: Tier, dump: Option<&Path>) -> i32 {
         };
         let ok = status.map(|s| s.success()).unwrap_or(false);
         if !ok {
-            let announced = std::fs::read_to_string(parts_dir.join(format!("{}.announce", prop.id))).unwrap_or_default();
+            let announced = read_announced(prop.id);
             if prop.crash_is_verdict {
                 crash_violations.push(Violation {
                     part: p.name.clone(),
@@ -1045,6 +1046,7 @@ fn orchestrate(prop: &Prop, tier: Tier, dump: Option<&Path>) -> i32 {
             }
         };
         let _ = std::fs::remove_file(&out);
+        clear_announced(prop.id);
         reports.push(rep);
     }
 
@@ -1249,8 +1251,36 @@ fn orchestrate(prop: &Prop, tier: Tier, dump: Option<&Path>) -> i32 {
     0
 }
 
-/// child-side: announce the case about to run (for crash attribution in C08)
-pub fn announce(prop_id: &str, text: &str) {
-    let p = verif_dir().join("evidence").join("parts").join(format!("{prop_id}.announce"));
+/// child-side: announce the case this worker thread is about to run (for crash attribution in C08)
+pub fn announce_thread(prop_id: &str, text: &str) {
+    let t = rayon::current_thread_index().unwrap_or(999);
+    let p = verif_dir().join("evidence").join("parts").join(format!("{prop_id}.announce.{t}"));
     let _ = std::fs::write(p, text);
+}
+
+fn read_announced(prop_id: &str) -> String {
+    let dir = verif_dir().join("evidence").join("parts");
+    let mut v = vec![];
+    if let Ok(rd) = std::fs::read_dir(&dir) {
+        for e in rd.flatten() {
+            if e.file_name().to_string_lossy().starts_with(&format!("{prop_id}.announce.")) {
+                if let Ok(t) = std::fs::read_to_string(e.path()) {
+                    v.push(t);
+                }
+            }
+        }
+    }
+    v.sort();
+    format!("[{}]", v.join(","))
+}
+
+fn clear_announced(prop_id: &str) {
+    let dir = verif_dir().join("evidence").join("parts");
+    if let Ok(rd) = std::fs::read_dir(&dir) {
+        for e in rd.flatten() {
+            if e.file_name().to_string_lossy().starts_with(&format!("{prop_id}.announce.")) {
+                let _ = std::fs::remove_file(e.path());
+            }
+        }
+    }
 }
